@@ -668,9 +668,12 @@ def st_trace_case(tier, nmin, nmax, with_clip=True, allow_absent=False):
         kind = draw(st.sampled_from(["nuc", "prot"]))
         n = draw(st.integers(nmin, nmax))
         full = (1 << n) - 1
-        shape = draw(st.sampled_from(["mixed", "mixed", "mixed", "all_match", "sparse"]))
+        shape = draw(st.sampled_from(["mixed", "mixed", "mixed", "all_match", "sparse", "never_all"]))
         if shape == "all_match":
             mask = st.just(full)
+        elif shape == "never_all":
+            # no column holds all sequences: sequences without overlap become likely
+            mask = st.integers(1, full - 1)
         elif shape == "mixed":
             mask = st.one_of(st.just(full), st.just(full), st.integers(1, full))
         else:
@@ -863,7 +866,7 @@ def st_msa(tier):
         kind = draw(st.sampled_from(["nuc", "prot"]))
         pool = draw(st.sampled_from(POOLS[kind][1:] * 6 + POOLS[kind][:1]))
         n = draw(st.integers(2, maxn))
-        relation = draw(st.sampled_from(["identical", "mutated", "mutated", "unrelated", "mixed"]))
+        relation = draw(st.sampled_from(["identical", "mutated", "mutated", "mutated", "unrelated", "mixed"]))
         text = st.text(pool, min_size=1, max_size=maxlen)
         if relation == "identical":
             seqs = [draw(text)] * n
@@ -1224,8 +1227,8 @@ SUBS = [
         "conversions",
         st_conv,
         run_conv,
-        quick=4000,
-        thorough=120000,
+        quick=5000,
+        thorough=150000,
         rule="trace with >= 1 internal gap and >= 1 terminal gap",
         clauses="gapped strings and trace_from_strings back; get_codes/get_symbols; find/remove terminal gaps; "
         "remove_gaps; identity (3 modes) and pairwise identity; score - all equal to a column loop",
@@ -1234,8 +1237,8 @@ SUBS = [
         "cigar",
         st_cigar,
         run_cigar,
-        quick=4000,
-        thorough=120000,
+        quick=5000,
+        thorough=150000,
         rule="pair trace with >= 1 internal gap and >= 1 terminal gap that CIGAR can express",
         clauses="read(write(a)) reproduces the trace CIGAR can carry under every option combination; "
         "op tuples and string agree; operations equal the per-column classification",
@@ -1244,8 +1247,8 @@ SUBS = [
         "fasta",
         st_fasta,
         run_fasta,
-        quick=2500,
-        thorough=80000,
+        quick=3000,
+        thorough=90000,
         rule="trace with >= 1 internal gap and >= 1 terminal gap",
         clauses="get_alignment(set_alignment(a)) recovers trace and sequences, with '-', '_' and extra gap characters",
     ),
@@ -1253,8 +1256,8 @@ SUBS = [
         "produced",
         st_produced,
         run_produced,
-        quick=1600,
-        thorough=50000,
+        quick=2400,
+        thorough=60000,
         rule="produced alignment with >= 1 internal gap and (>= 1 terminal gap or clipped ends)",
         clauses="trace validity of align_optimal / align_banded / align_local_gapped results, and all conversions on them",
     ),
@@ -1262,7 +1265,7 @@ SUBS = [
         "cigar_parse",
         st_cigar_parse,
         run_cigar_parse,
-        quick=2000,
+        quick=2400,
         thorough=60000,
         rule="parsed alignment with >= 1 internal and >= 1 terminal gap",
         clauses="trace validity and column content of read_alignment_from_cigar on arbitrary CIGAR strings / op tuples",
@@ -1271,8 +1274,8 @@ SUBS = [
         "msa",
         st_msa,
         run_msa,
-        quick=640,
-        thorough=20000,
+        quick=1280,
+        thorough=30000,
         rule=">= 3 sequences of different lengths, aligned without ValueError",
         clauses="align_multiple: one row per input in input order, gap-stripped rows == inputs, valid trace, "
         "order is a permutation, tree leaves are 0..n-1 once; documented ValueError accepted when distances are inferred",
